@@ -140,9 +140,19 @@ struct Answers {
     defs: Vec<Result<Option<Result<DefTruth, ()>>, ()>>,
 }
 
+/// symbol indexes queried: all of 0..n+3, or (for very large tables) the first 1800 and everything
+/// from 65 000 on (around the 2^16 boundary and the end)
+fn index_list(n: usize) -> Vec<usize> {
+    if n <= 5000 {
+        (0..n + 3).collect()
+    } else {
+        (0..1800).chain(65_000..n + 3).collect()
+    }
+}
+
 fn query<E: EndianParse>(t: &SymbolVersionTable<'_, E>, n: usize) -> Answers {
     let mut a = Answers { reqs: Vec::new(), defs: Vec::new() };
-    for i in 0..n + 3 {
+    for i in index_list(n) {
         a.reqs.push(match t.get_requirement(i) {
             Err(_) => Err(()),
             Ok(None) => Ok(None),
@@ -178,11 +188,11 @@ fn judge(who: &str, ctx: &str, m: &VerModel, got: Result<Option<Answers>, String
         Err(msg) => out.violate(format!("panic:{who} in {}", panic_site(&msg)), format!("{ctx}: {msg}")),
         Ok(None) => out.violate(format!("well-formed-object-rejected:{who}"), ctx.to_string()),
         Ok(Some(a)) => {
-            for i in 0..n + 3 {
+            for (slot, i) in index_list(n).into_iter().enumerate() {
                 out.transitions += 2;
                 // requirement
                 let want = m.requirement(i);
-                let ok = match (&a.reqs[i], &want) {
+                let ok = match (&a.reqs[slot], &want) {
                     (Ok(g), Some(w)) => g == w,
                     // beyond the versym table: never a record
                     (Ok(None), None) | (Err(()), None) => true,
@@ -191,12 +201,12 @@ fn judge(who: &str, ctx: &str, m: &VerModel, got: Result<Option<Answers>, String
                 if !ok {
                     out.violate(
                         format!("requirement:{who}"),
-                        format!("{ctx}: symbol {i} (versym {:?}): get_requirement = {:?}, ground truth {:?}", m.versym.get(i).map(|v| format!("{:#x}", v)), a.reqs[i], want),
+                        format!("{ctx}: symbol {i} (versym {:?}): get_requirement = {:?}, ground truth {:?}", m.versym.get(i).map(|v| format!("{:#x}", v)), a.reqs[slot], want),
                     );
                     return records;
                 }
                 let wantd = m.definition(i);
-                let okd = match (&a.defs[i], &wantd) {
+                let okd = match (&a.defs[slot], &wantd) {
                     (Ok(None), Some(None)) => true,
                     (Ok(Some(Ok(g))), Some(Some(w))) => g == w,
                     (Ok(None), None) | (Err(()), None) => true,
@@ -205,15 +215,15 @@ fn judge(who: &str, ctx: &str, m: &VerModel, got: Result<Option<Answers>, String
                 if !okd {
                     out.violate(
                         format!("definition:{who}"),
-                        format!("{ctx}: symbol {i} (versym {:?}): get_definition = {:?}, ground truth {:?}", m.versym.get(i).map(|v| format!("{:#x}", v)), a.defs[i], wantd),
+                        format!("{ctx}: symbol {i} (versym {:?}): get_definition = {:?}, ground truth {:?}", m.versym.get(i).map(|v| format!("{:#x}", v)), a.defs[slot], wantd),
                     );
                     return records;
                 }
-                if let Ok(Some(r)) = &a.reqs[i] {
+                if let Ok(Some(r)) = &a.reqs[slot] {
                     records += 1;
                     dig.bytes(&r.name);
                 }
-                if let Ok(Some(Ok(d))) = &a.defs[i] {
+                if let Ok(Some(Ok(d))) = &a.defs[slot] {
                     records += 1;
                     dig.u64(d.hash as u64);
                 }
@@ -408,6 +418,12 @@ impl Space for Big {
             d.names = (0..5).map(|j| format!("DEF_{}.{}", di, j).into_bytes()).collect();
         }
         assert_eq!(m.versym.len(), 2 + 2 * total + 4);
+        // symbol indexes beyond 2^16: pad the versym table to 70 000 entries
+        let last = *m.versym.last().unwrap();
+        while m.versym.len() < 69_990 {
+            m.versym.push(0);
+        }
+        m.versym.extend([2, 0x8003, last, 1, 0, 845, 0x8000 | 845, 0x7fff, 3, 4]);
         let s = sections(&m, enc, lay, lay, false);
         let ctx = format!("{} 40x20 needs, 40x5 defs, layout {:?}", enc.name(), lay);
         let mut dig = Fnv::new();
